@@ -138,7 +138,7 @@ func c10Builtins(t *zsim.Tape, w *zsim.World, d *zsim.Disk, sc *c10Scenario, out
 		lines = append(lines, "", "拦截异常：", "\t（显示：“caught”）", "\t输出“handled”")
 	}
 	sc.Program = strings.Join(lines, "\n") + "\n"
-	enableFaults(t, d, &sc.Faults, []string{zsim.FOpenEACCES, zsim.FOpenEMFILE, zsim.FOpenVanished, zsim.FReadEIO, zsim.FReadShort, zsim.FWriteENOSPC, zsim.FWriteEROFS, zsim.FWriteTorn, zsim.FReadDirEIO})
+	enableFaults(t, d, &sc.Faults, []string{zsim.FOpenEACCES, zsim.FOpenEMFILE, zsim.FOpenVanished, zsim.FReadEIO, zsim.FReadShort, zsim.FWriteENOSPC, zsim.FWriteEROFS, zsim.FWriteTorn, zsim.FReadDirEIO, zsim.FSyncEIO})
 	for _, op := range ops {
 		if op.kind == "写入文件" {
 			written[op.path] = append(written[op.path], op.text)
